@@ -1112,6 +1112,149 @@ def main():
     with Phase(res, "codec value oracle (c03_fn)"):
         import c03_fn  # noqa: E402
         c03_fn.run(res, rng.fork("fn"), drv, a.tier)
+    # ------------------------------------------------------------ operation sequences on one function object
+    # random sequences of {encode, change through the function API, change through a member object handed out earlier, decode into the
+    # same object}: after every step the body `encode()` gives must carry what the object holds now — it decodes (by S/F) to a value
+    # equal to `get()`, and equals the encoding of the variable tree.
+    with Phase(res, "operation sequences on function objects"):
+        seq_rng = rng.fork("sequences")
+        svg = ValueGen(seq_rng, hlib.Result("C03", a.tier, a.seed))       # own generator: no coverage bookkeeping, no histogram noise
+        sfc = StreamsFunctions()
+
+        def sub_value(node, mode="typed", sizes=(1, 2)):
+            return svg.node(node, mode, list(sizes))
+
+        def members_of(f):
+            """member objects the function hands out: f[key] / f.KEY of a record, f[i] of an open list, and their members one level down"""
+            out = []
+            d = f.data
+            if isinstance(d, V.List):
+                for k in list(d.data):
+                    for how, get in ((f"f[{k!r}]", lambda k=k: f[k]), (f"f.{k}", lambda k=k: getattr(f, k))):
+                        try:
+                            out.append((how, get()))
+                        except Exception:  # noqa: BLE001
+                            pass
+            elif isinstance(d, V.Array):
+                for i in range(len(d.data)):
+                    out.append((f"f[{i}]", f[i]))
+            else:
+                out.append(("f.data", d))
+            more = []
+            for how, m in out:
+                if isinstance(m, V.Array):
+                    more += [(f"{how}[{i}]", m[i]) for i in range(len(m.data))]
+                elif isinstance(m, V.List):
+                    more += [(f"{how}[{k!r}]", m[k]) for k in list(m.data)]
+            return out + more
+
+        def mutate_member(how, m):
+            """one change through the member object; returns a description or None when nothing applicable / the value was refused"""
+            r = seq_rng
+            try:
+                if isinstance(m, V.Array):
+                    el = vfunctions.generate(m.item_decriptor)
+                    op = r.choice(["append", "set", "setitem"] if m.data else ["append", "set"])
+                    if op == "append":
+                        m.append(sub_value(el))
+                        return f"{how}.append(v)"
+                    if op == "set":
+                        m.set([sub_value(el) for _ in range(r.choice([0, 1, 2, 3]))])
+                        return f"{how}.set([...])"
+                    i = r.below(len(m.data))
+                    m[i] = sub_value(el)
+                    return f"{how}[{i}] = v"
+                if isinstance(m, V.List):
+                    if r.chance(1, 2):
+                        m.set(sub_value(m))
+                        return f"{how}.set(dict)"
+                    k = r.choice(list(m.data))
+                    m[k] = sub_value(m.data[k])
+                    return f"{how}[{k!r}] = v"
+                m.set(sub_value(m, r.choice(["typed", "plain"])))
+                return f"{how}.set(v)"
+            except Exception:  # noqa: BLE001 - a refused value is not this oracle's business (judged by the value oracles)
+                return None
+
+        def mutate_function(f, cls):
+            r = seq_rng
+            d = f.data
+            try:
+                op = r.choice(["set", "item", "attr", "append"])
+                if op == "set" or not isinstance(d, (V.List, V.Array)):
+                    f.set(sub_value(d))
+                    return "f.set(v)"
+                if isinstance(d, V.List):
+                    k = r.choice(list(d.data))
+                    if op == "attr":
+                        setattr(f, k, sub_value(d.data[k]))
+                        return f"f.{k} = v"
+                    f[k] = sub_value(d.data[k])
+                    return f"f[{k!r}] = v"
+                el = vfunctions.generate(d.item_decriptor)
+                if op == "append" or not d.data:
+                    f.append(sub_value(el))
+                    return "f.append(v)"
+                i = r.below(len(d.data))
+                f[i] = sub_value(el)
+                return f"f[{i}] = v"
+            except Exception:  # noqa: BLE001
+                return None
+
+        n_seq = (4 if big else 2)
+        for cls in usable:
+            if cls._data_format is None:
+                continue
+            for q in range(n_seq):
+                try:
+                    f = cls(sub_value(cls().data))
+                except Exception:  # noqa: BLE001
+                    continue
+                steps = []
+                handed_out = members_of(f) if q % 2 == 0 else []       # members obtained BEFORE the first encode ...
+                for step in range(8 if big else 6):
+                    kind = seq_rng.choice(["member", "member", "function", "decode", "encode"]) if step else "encode"
+                    if kind == "member":
+                        if not handed_out or seq_rng.chance(1, 3):
+                            handed_out = members_of(f)                 # ... or between two encodes
+                        if not handed_out:
+                            continue
+                        how, m = seq_rng.choice(handed_out)
+                        done = mutate_member(how, m)
+                    elif kind == "function":
+                        done = mutate_function(f, cls)
+                    elif kind == "decode":
+                        try:
+                            f.decode(cls(sub_value(cls().data)).encode())
+                            done = "f.decode(body of another value)"
+                        except Exception:  # noqa: BLE001
+                            done = None
+                    else:
+                        done = "f.encode()"
+                    if done is None:
+                        continue
+                    steps.append(done)
+                    opname = "append" if ".append(" in done else ("assign" if done.endswith("= v") else ("set" if ".set(" in done else done.split("(")[0].split(".")[-1]))
+                    res.bump("sequence_step", ("handed-out member: " if kind == "member" else "function: ") + opname)
+                    case = {"function": cls.__name__, "steps": list(steps), "value_now": canon(f.get())}
+                    try:
+                        body = f.encode()
+                        tree = f.data.encode()
+                        back = sfc.decode(secsgem.hsms.HsmsMessage(secsgem.hsms.HsmsStreamFunctionHeader(81, cls._stream, cls._function, False, 0), body))
+                        now = expected_after_wire(f.data)
+                        ok = type(back) is cls and same(back.get(), now) and body == tree
+                        detail = {"decoded": canon(back.get()), "body": body.hex()[:200], "encoding_of_the_content": tree.hex()[:200]}
+                    except Exception as exc:  # noqa: BLE001
+                        ok, now, detail = False, None, f"{type(exc).__name__}: {str(exc)[:160]}"
+                    res.evaluations += 1
+                    if not ok:
+                        res.violate("c03-stale-encoding", "after a sequence of operations on one function object, encode() does not carry what the object holds",
+                                    case, canon(now), detail)
+                        break
+                res.count(("sequence", cls.__name__, tuple(steps)), nontrivial=len(steps) > 1,
+                          sample={"op": "operation sequence", "function": cls.__name__, "steps": steps} if len(res.samples) < 12 and len(steps) > 3 else None)
+        res.exhaustive_parts.append(f"operation sequences (encode / function API / handed-out member / decode) on every function with a body: {n_seq} sequences each, body checked after every step")
+
     with Phase(res, "class-level tables after the whole harness"):
         log = []
         n_reads = sum(read_all_of(cls, log) for cls in list(secs_streams_functions))
